@@ -547,7 +547,8 @@ def template_ctor(task, tier, seed):
     cls_name = node.args.args[0].arg
     calls = [n for n in ast.walk(node) if isinstance(n, ast.Call) and isinstance(n.func, ast.Name) and n.func.id == "get_spontaneous_environment"]
     if len(calls) != 1 or calls[0].keywords or any(isinstance(a, ast.Starred) for a in calls[0].args):
-        return [tres("C13.template_ctor.shape", False, "Template.__new__: exactly one positional call of get_spontaneous_environment expected", t0=t0, undecided=True)]
+        # another shape of the same constructor path: the position-by-position reading is not available, the semantic table decides
+        return template_ctor_semantic(t0)
     call = calls[0]
     first = call.args[0]
     ok0 = isinstance(first, ast.Attribute) and first.attr == "environment_class" and isinstance(first.value, ast.Name) and first.value.id == cls_name
@@ -580,8 +581,8 @@ def template_ctor(task, tier, seed):
     rets = [n for n in ast.walk(node) if isinstance(n, ast.Return)]
     ok = len(rets) == 1 and isinstance(rets[0].value, ast.Call) and ast.unparse(rets[0].value.func) == "env.from_string" and \
         ast.unparse(rets[0].value.args[0]) == "source" and {k.arg: ast.unparse(k.value) for k in rets[0].value.keywords} == {"template_class": cls_name}
-    out.append(tres("C13.template_ctor.from_string", ok, "returns env.from_string(source, template_class=cls)", {"arg": "from_string"}, t0))
-    return out
+    out.append(tres("C13.template_ctor.from_string", ok, "returns env.from_string(source, template_class=cls)", {"arg": "from_string"}, t0, undecided=not ok))
+    return out + template_ctor_semantic(t0)
 
 
 ALT = {"block_start_string": "<%", "block_end_string": "%>", "variable_start_string": "${", "variable_end_string": "}$", "comment_start_string": "<#", "comment_end_string": "#>",
@@ -652,20 +653,137 @@ def replay_lexer_property(w):
     return (bad, f"overlay with other block delimiters renders {a!r} (expected 'y'); environment whose delimiters were changed afterwards renders {b!r} (expected '1')")
 
 
+# ---- semantic forms (decide the obligations whatever the shape of the code)
+
+KEY_VALUES = {  # three pairwise different admissible values per lexer option
+    "block_start_string": ("{%", "<%", "[%"), "block_end_string": ("%}", "%>", "%]"), "variable_start_string": ("{{", "${", "[["), "variable_end_string": ("}}", "}$", "]]"),
+    "comment_start_string": ("{#", "<#", "[#"), "comment_end_string": ("#}", "#>", "#]"), "line_statement_prefix": (None, "#", "%"), "line_comment_prefix": (None, "##", "//"),
+    "trim_blocks": (False, True), "lstrip_blocks": (False, True), "newline_sequence": ("\n", "\r\n", "\r"), "keep_trailing_newline": (False, True),
+}
+
+
+def env_reads(fn, param_index):
+    """attributes read as `<environment parameter>.<attr>` in a real function; other uses of the parameter (it escapes)"""
+    node, _ = extract.function_ast(fn)
+    pname = node.args.args[param_index].arg
+    reads, escapes = set(), []
+    parents = {}
+    for n in ast.walk(node):
+        for c in ast.iter_child_nodes(n):
+            parents[c] = n
+    for n in ast.walk(node):
+        if isinstance(n, ast.Name) and n.id == pname and isinstance(n.ctx, ast.Load):
+            par = parents.get(n)
+            if isinstance(par, ast.Attribute) and par.value is n:
+                reads.add(par.attr)
+            else:
+                escapes.append((n.lineno, ast.unparse(par) if par is not None else pname))
+    return reads, escapes
+
+
+def distinct_lexers(attr):
+    """native: real environments that differ ONLY in `attr` get different lexers from the real get_lexer (pairwise over the values)"""
+    vals = KEY_VALUES[attr]
+    envs = []
+    for v in vals:
+        e = jinja2.Environment()
+        setattr(e, attr, v)
+        envs.append(e)
+    shared = [(vals[i], vals[j]) for i in range(len(vals)) for j in range(i + 1, len(vals)) if L.get_lexer(envs[i]) is L.get_lexer(envs[j])]
+    return shared
+
+
 def cache_key(task, tier, seed):
-    try:
-        from contracts import c12
-    except Exception as ex:  # noqa
-        return [Res("C13.cache_key", "unknown", "table", 0, f"contracts.c12 not importable: {ex}", "table")]
-    rs = c12.cache_key(task, tier, seed)
-    for r in rs:
-        r.name = r.name.replace("C12.", "C13.", 1)
-    return rs
+    """every environment attribute read while a Lexer is built (Lexer.__init__, compile_rules: read-set from their real source)
+    distinguishes lexers: environments differing only in that attribute never share a cached lexer (decided on the real get_lexer,
+    whatever the shape of its key); the environment object does not escape to other code while the lexer is built"""
+    t0 = time.time()
+    out = []
+    reads = {}
+    for fn, idx in ((L.Lexer.__init__, 1), (L.compile_rules, 0)):
+        r, esc = env_reads(fn, idx)
+        for a in r:
+            reads.setdefault(a, []).append(fn.__qualname__)
+        for ln, txt in esc:
+            ok = txt.startswith("compile_rules(")
+            out.append(tres(f"C13.cache_key.environment_not_leaked[{fn.__qualname__}@{txt[:40]}]", ok, f"line {ln}: the environment object is passed on as `{txt}`"
+                            + (" (a function under this contract)" if ok else ""), {"attr": None}, t0, undecided=not ok))
+    for a, where in sorted(reads.items()):
+        if a not in KEY_VALUES:
+            out.append(tres(f"C13.cache_key.read[{a}]", False, f"environment.{a} is read by {where}: no table of alternative values for this attribute", None, t0, undecided=True))
+            continue
+        shared = distinct_lexers(a)
+        out.append(tres(f"C13.cache_key.read[{a}]", not shared, f"environment.{a} is read by {where}; environments differing only in it "
+                        + (f"SHARE one lexer for the values {shared[:2]}" if shared else f"get distinct lexers for all of {KEY_VALUES[a]}"), {"attr": a}, t0))
+    out.append(tres("C13.cache_key.reads_found", len(reads) >= 12, f"{len(reads)} environment attributes read while a lexer is built: {sorted(reads)}", {"attr": None}, t0, undecided=True))
+    # equal options share the cached lexer (the cache is used at all)
+    a, b = jinja2.Environment(trim_blocks=True), jinja2.Environment(trim_blocks=True)
+    out.append(tres("C13.cache_key.equal_options_share", L.get_lexer(a) is L.get_lexer(b), "two environments with equal options get the same cached lexer object", {"attr": None}, t0))
+    return out
 
 
 def replay_cache_key(w):
-    from contracts import c12
-    return c12.replay_cache_key(w)
+    attr = w.get("attr")
+    if attr in KEY_VALUES:
+        shared = distinct_lexers(attr)
+        return (bool(shared), f"environments differing only in {attr}: shared lexer for {shared}" if shared else f"distinct lexers for all values of {attr}")
+    a, b = jinja2.Environment(trim_blocks=True), jinja2.Environment(trim_blocks=True)
+    return (L.get_lexer(a) is not L.get_lexer(b), "equal options share one lexer" if L.get_lexer(a) is L.get_lexer(b) else "equal options get different lexer objects")
+
+
+def template_ctor_semantic(t0):
+    """Template(source, option=value) builds, through the real constructor path, an environment with exactly that option and the
+    defaults elsewhere - option by option, so any misalignment of the positional argument list shows; loader None, no template cache,
+    auto_reload off, no bytecode cache, shared; defaults equal Environment()'s; template_class and environment_class are honoured"""
+    out = []
+    params = [p for p in inspect.signature(E.Environment.__init__).parameters if p != "self"]
+    attr_of = {"enable_async": "is_async"}
+    d = jinja2.Environment()
+    observed = list(LEXER_OPTIONS) + ["optimized", "undefined", "finalize", "autoescape", "is_async"]
+    for p in params:
+        if p in FIXED_FOR_TEMPLATE:
+            continue
+        if p not in ALT:
+            out.append(tres(f"C13.template_ctor.option[{p}]", False, f"no alternative value known for the Environment option {p}", None, t0, undecided=True))
+            continue
+        v = ALT[p]
+        problems = []
+        try:
+            t = jinja2.Template("x", **{p: v})
+            e = jinja2.Environment(**{p: v})
+            te = t.environment
+            for a in observed:
+                if getattr(te, a) != getattr(e, a):
+                    problems.append(f".{a} = {getattr(te, a)!r}, Environment({p}=...) has {getattr(e, a)!r}")
+            if sorted(te.extensions) != sorted(e.extensions):
+                problems.append(f"extensions {sorted(te.extensions)} vs {sorted(e.extensions)}")
+            if p == "extensions" and list(te.iter_extensions()) and [type(x) for x in te.iter_extensions()] != [type(x) for x in e.iter_extensions()]:
+                problems.append("extension order differs")
+            if te.loader is not None or te.cache is not None or te.auto_reload is not False or te.bytecode_cache is not None or te.shared is not True:
+                problems.append(f"loader={te.loader!r} cache={te.cache!r} auto_reload={te.auto_reload!r} bytecode_cache={te.bytecode_cache!r} shared={getattr(te, 'shared', None)!r}")
+        except Exception as ex:  # noqa
+            problems.append(f"{type(ex).__name__}: {ex}")
+        out.append(tres(f"C13.template_ctor.option[{p}]", not problems, f"Template('x', {p}={v!r}).environment: " + ("; ".join(problems[:3]) or "that option set, every other option default"),
+                        {"arg": p}, t0))
+    problems = []
+    try:
+        te = jinja2.Template("x").environment
+        problems += [f"default {a}: {getattr(te, a)!r} vs {getattr(d, a)!r}" for a in observed if getattr(te, a) != getattr(d, a)]
+
+        class MyEnv(jinja2.Environment):
+            pass
+
+        class MyTemplate(jinja2.Template):
+            environment_class = MyEnv
+
+        mt = MyTemplate("a{{ 1 }}", trim_blocks=True)
+        if type(mt) is not MyTemplate or type(mt.environment) is not MyEnv or mt.render() != "a1" or mt.environment.trim_blocks is not True:
+            problems.append(f"Template subclass: type {type(mt).__name__}, environment {type(mt.environment).__name__}, render {mt.render()!r}")
+    except Exception as ex:  # noqa
+        problems.append(f"{type(ex).__name__}: {ex}")
+    out.append(tres("C13.template_ctor.defaults_and_classes", not problems, "; ".join(problems[:3]) or "Template(source) has Environment()'s defaults; template_class / environment_class honoured",
+                    {"arg": "defaults"}, t0))
+    return out
 
 
 
